@@ -437,10 +437,28 @@ def run(chk):
     # lead prompts
     _, tpp = repo.method('PlayerThread', '_playing_phase', 'C19.R6')
     w_tpp, q_tpp = loc(repo, 'PlayerThread', '_playing_phase', 'C19.R6')
-    prompts = [n for n in method_calls(tpp, 'send_message') if n.args and not contains_call(n.args[0], 'receive_message_from_queue')]
+    def arms(e, defs_):
+        # the alternatives of a conditional expression (possibly held in a local) are judged one by one
+        if isinstance(e, ast.IfExp):
+            return arms(e.body, defs_) + arms(e.orelse, defs_)
+        if isinstance(e, ast.Name) and len(defs_.get(e.id, [])) >= 1:
+            return [a for d in defs_[e.id] for a in arms(d, defs_)]
+        return [e]
+    tdefs = {}
+    for n_ in ast.walk(tpp):
+        if isinstance(n_, ast.Assign) and len(n_.targets) == 1 and isinstance(n_.targets[0], ast.Name):
+            tdefs.setdefault(n_.targets[0].id, []).append(n_.value)
+    sends = [n for n in method_calls(tpp, 'send_message') if n.args and not contains_call(n.args[0], 'receive_message_from_queue')]
+    prompts = []
+    for n in sends:
+        for a_ in arms(n.args[0], tdefs):
+            if not contains_call(a_, 'receive_message_from_queue') and not any(ast.unparse(a_) == ast.unparse(x[1]) for x in prompts):
+                prompts.append((n, a_))
     chk.floor('C19.R6', 'lead prompt builders in PlayerThread._playing_phase', len(prompts), 2)
     n_l = 0
-    for pr in prompts:
+    for pr_call, pr_arg in prompts:
+        pr = ast.Call(pr_call.func, [pr_arg], [])
+        ast.copy_location(pr, pr_call)
         for seat in P:
             t = fresh(f, 'PlayerThread', player=seat)
             txt = eval_in(f, pr.args[0], {'self': t}, sm, pth, 'C19.R6', q_tpp)
